@@ -1,9 +1,11 @@
 (* Round.v -- decimal rounding as the code uses it.
-   Python's built-in round(x, k) on a binary64 x (surface_evolver.py:41,46,129,130; tessellation.py:64,65; fmatrix.py:159-164) is
+   Python's built-in round(x, k) on a Python float x (surface_evolver.py:46,129,130: coordinates and Lagrange multipliers) is
    correctly rounded: the exact value of x is rounded to k decimals, exact ties to the even neighbour, and the result is the
    binary64 nearest to that decimal.  [rhe] is the integer part of that rule on an exact fraction, [round_dec] the rule on Q,
    [py_round] the binary64 function.  numpy's around / ndarray.round (tessellation.py:64-66,133,134; fmatrix.py:255,259,494,498)
-   is rint(x * 10^k) / 10^k evaluated in binary64: [np_around].  No proofs here. *)
+   is rint(x * 10^k) / 10^k evaluated in binary64: [np_around]; round() applied to a numpy.float64 is the same function
+   (surface_evolver.py:41: the density comes out of a pandas column; tessellation.py:64,65: Qhull's vertices) - it differs from
+   Python's on doubles next to a tie (0.54025 -> 0.5402 against 0.5403).  No proofs here. *)
 From Coq Require Import ZArith QArith List Bool Uint63 PrimFloat FloatOps SpecFloat.
 From Forsys Require Import Model.Resample.
 Import ListNotations.
@@ -56,8 +58,8 @@ Definition np_around (k : nat) (x : float) : float :=
 (* tessellation.py:64-66,124-140: the lattice vertex made from corner p of the ridge p -> q (first = true) or from corner q (first = false):
    x = around(linspace(round(px, 3), round(qx, 3), 2), 3); y = around(line_eq(p, q, x), 3) *)
 Definition ridge_vertex (first : bool) (p q : float * float) : float * float :=
-  let x0 := py_round 3 (fst p) in
-  let x1 := py_round 3 (fst q) in
+  let x0 := np_around 3 (fst p) in                                 (* round() of a numpy.float64 is numpy's rounding *)
+  let x1 := np_around 3 (fst q) in
   let x := np_around 3 (if first then x0 else x1) in
   let p0 := (np_around 3 (fst p), np_around 3 (snd p)) in
   let p1 := (np_around 3 (fst q), np_around 3 (snd q)) in
@@ -80,3 +82,13 @@ Definition ridge_vertex_Q (first : bool) (p q : Q * Q) : Q * Q :=
     then (if first then snd p0 else snd p1)
     else (snd p0 + ((snd p1 - snd p0) / (fst p1 - fst p0)) * (x - fst p0))%Q in
   (x, round_dec 3 y).
+
+(* helpers for the generated case files *)
+Definition fpair_eqb (a b : float * float) : bool := PrimFloat.eqb (fst a) (fst b) && PrimFloat.eqb (snd a) (snd b).
+Definition ridge_ok (t : (float * float) * (float * float) * ((float * float) * (float * float))) : bool :=
+  let '(p, q, (a, b)) := t in fpair_eqb (ridge_vertex true p q) a && fpair_eqb (ridge_vertex false p q) b.
+(* a parsed numeric field: ((numerator, denominator) of the token's double, numerator of the stored k-decimal number) *)
+Definition field_ok (k : nat) (t : Z * Z * Z) : bool := let '(n, d, m) := t in rhe (n * pow10 k) d =? m.
+(* the stored double itself *)
+Definition field_float_ok (k : nat) (t : float * float) : bool := PrimFloat.eqb (py_round k (fst t)) (snd t).
+Definition field_np_ok (k : nat) (t : float * float) : bool := PrimFloat.eqb (np_around k (fst t)) (snd t).
